@@ -101,7 +101,7 @@ SPECS_FOR = {
     "C17": [("TraceEvents", "C17")],
 }
 EVENT_PROPS = ("C14", "C15", "C16", "C17")
-EVENT_KINDS = {"C14": ("fshock", "mistake", "mixed", "index"), "C15": ("plimit", "mixed", "plimit"), "C16": ("halt", "mixed", "halt"),
+EVENT_KINDS = {"C14": ("fshock", "mistake", "mixed", "index"), "C15": ("plimit", "mixed", "plimit"), "C16": ("halt", "mixed", "haltx", "halt"),
                "C17": ("index", "fshock", "index")}
 N_EVENT_RUNS = {"quick": 150, "thorough": 3000}
 RULES = {
@@ -131,10 +131,17 @@ def build_runs(tier, seed, prop):
         # spec -> code: TLC behaviours of PamsRunner forced through the real runner (all draws and agent programs)
         from . import replay_run
         runs += replay_run.runs(tier, seed)
+    if prop in ("C05", "C09"):
+        # ... and of the composed PamsSystem (real books, priced ledger): orders chosen by TLC as well
+        from . import replay_system
+        runs += replay_system.runs(tier, seed)
+    if prop == "C06":
+        from . import drive_events
+        runs += drive_events.generate(N_EVENT_RUNS[tier] // 3, sub_seed(seed, "events", prop), kinds=("fshock", "index", "mixed"))
     if prop == "C09":
         # "no fill in a session without execution, whatever events are configured": runs with the built-in events
         from . import drive_events
-        runs += drive_events.generate(N_EVENT_RUNS[tier] // 2, sub_seed(seed, "events", prop), kinds=("halt", "mixed", "halt", "plimit"))
+        runs += drive_events.generate(N_EVENT_RUNS[tier] // 2, sub_seed(seed, "events", prop), kinds=("halt", "haltx", "mixed", "haltx", "plimit"))
     return runs
 
 
@@ -261,6 +268,9 @@ def check(prop, tier, seed, t0):
     if prop in ("C05", "C06", "C09", "C10", "C11"):
         from . import replay_run
         cov["spec_to_code_replay"] = dict(replay_run.last_stats)
+        if prop in ("C05", "C09"):
+            from . import replay_system
+            cov["spec_to_code_replay_composed_system"] = dict(replay_system.last_stats)
     evidence.write(prop, tier, seed, "model_checking", cov, ASSUMPTIONS, time.time() - t0, viol)
     print("%s tier=%s: design states=%d, runs=%d, events=%d, violations=%d, known=%d (%.0fs)" % (
         prop, tier, cov["states"], len(runs), nev, viol, known, time.time() - t0))
